@@ -1259,11 +1259,13 @@ pub fn implicit_defaults(m: &Model, ctx: &mut Ctx, rule: &str, written_and_optio
     let raw = |id: &str| named("ElsewhereDeclaredValue", vec![("identifier", Val::Str(id.into())), ("parent", Val::none()), ("module", Val::none())]);
     let linked_int = Val::Ctor("LinkedNestedValue".into(), vec![], [("supertypes".to_string(), Val::List(vec![Val::Str("Num".into())])), ("value".to_string(), named("LinkedIntValue", vec![("integer_type", Val::Sym("INT".into())), ("value", Val::int(2))]))].into_iter().collect());
     let linked_enum = named("EnumeratedValue", vec![("enumerated", Val::Str("Col".into())), ("enumerable", Val::Str("green".into()))]);
+    let linked_ref = named("LinkedElsewhereDefinedValue", vec![("parent", Val::none()), ("identifier", Val::Str("standard".into())), ("can_be_const", Val::Bool(true))]);
     let scenarios: Vec<(&str, &str, Val, Option<Val>)> = vec![
         ("raw named number (`b Num DEFAULT two`, Num linked later)", "Num", raw("two"), None),
         ("raw enumeral (`b Col DEFAULT green`, Col linked later)", "Col", raw("green"), None),
         ("linked named number (Num linked before)", "Num", linked_int.clone(), Some(linked_int)),
         ("linked enumeral (Col linked before)", "Col", linked_enum.clone(), Some(linked_enum)),
+        ("linked value reference (`b Num DEFAULT standard`, standard Num ::= 2, Num linked before)", "Num", linked_ref.clone(), Some(linked_ref)),
     ];
     // (written?, DEFAULT? / OPTIONAL / mandatory): the written value wins, the DEFAULT is taken only when nothing is written, a
     // mandatory component that is left out is an error; an OPTIONAL component must stay distinguishable from a mandatory one
@@ -1334,7 +1336,7 @@ pub fn implicit_defaults(m: &Model, ctx: &mut Ctx, rule: &str, written_and_optio
         }
     }
     for (label, tyname, default, unchanged) in scenarios {
-        let key = format!("implicit-default:{}", label.split(' ').take(3).collect::<Vec<_>>().join("-"));
+        let key = format!("implicit-default:{}", label.split(' ').take(3).collect::<Vec<_>>().join("-").trim_end_matches(&['(', '`'][..]).to_string());
         ctx.oblige(rule, &key, true);
         depth.set(0);
         let s = named("SequenceOrSet", vec![("components_of", Val::List(vec![])), ("extensible", Val::none()), ("constraints", Val::List(vec![])),
@@ -1352,6 +1354,7 @@ pub fn implicit_defaults(m: &Model, ctx: &mut Ctx, rule: &str, written_and_optio
                     Some(Val::Ctor(k, q, _)) if k == "Implicit" => {
                         let v = q.first().cloned().unwrap_or(Val::Unit);
                         let sh = v.show();
+                        if std::env::var("ASNLINT_DEBUG").is_ok() { eprintln!("[{}] {} depth={}", label, sh, depth.get()); }
                         if sh.contains("ElsewhereDeclaredValue") {
                             ctx.violate(rule, "implicit-default:bare-reference", &f.file, f.line,
                                 &format!("`{{ a 1 }}` under `SEQUENCE {{ a INTEGER, b {} DEFAULT .. }}`, {}: the omitted component gets `{}` — the DEFAULT exactly as the lexer left it; the generators render a bare reference as a constant (`TWO`, `GREEN`) nobody declares. Whether the DEFAULT is linked by then depends on the order in which the two definitions are linked, i.e. on their names", tyname, label, sh.chars().take(110).collect::<String>()));
